@@ -186,6 +186,51 @@ theorem onArg_whole (rv : Bool) (a n : Nat) (d : Dest) : OnArg a (whole rv a n d
     simp [Instr.kills, Instr.uses] at h
     omega
 
+theorem safe_readAll {inp : Input} {a n : Nat} (hn : n ≤ inp.size a) : Safe inp (readAll a n) := by
+  refine ⟨?_, ?_⟩
+  · intro x hx
+    simp only [readAll, List.mem_map, List.mem_range] at hx
+    obtain ⟨i, hi, rfl⟩ := hx
+    exact (ok_read inp a i).2 (by omega)
+  · apply clean_of_no_kills
+    intro x hx b j hk
+    simp only [readAll, List.mem_map, List.mem_range] at hx
+    obtain ⟨i, hi, rfl⟩ := hx
+    exact hk
+
+theorem noKills_readAll (a n : Nat) : NoKills (readAll a n) := by
+  intro x hx b j hk
+  simp only [readAll, List.mem_map, List.mem_range] at hx
+  obtain ⟨i, hi, rfl⟩ := hx
+  exact hk
+
+theorem onArg_readAll (a n : Nat) : OnArg a (readAll a n) := by
+  intro x hx b j h
+  simp only [readAll, List.mem_map, List.mem_range] at hx
+  obtain ⟨i, _, rfl⟩ := hx
+  simp [Instr.kills, Instr.uses] at h
+  omega
+
+theorem onArg_callAll (rv : Bool) (a n : Nat) (d : Dest) : OnArg a (callAll rv a n d) := by
+  unfold callAll
+  cases rv
+  · simp only [Bool.false_eq_true, if_false]
+    intro x hx b j h
+    simp only [List.mem_map, List.mem_range] at hx
+    obtain ⟨i, _, rfl⟩ := hx
+    simp [Instr.kills, Instr.uses] at h
+    omega
+  · simp only [if_true]; exact onArg_xferAll a n .move d
+
+theorem safe_ite {inp : Input} {c : Prop} [Decidable c] {p q : List Instr} (hp : c → Safe inp p) (hq : ¬ c → Safe inp q) :
+    Safe inp (if c then p else q) := by
+  split
+  · exact hp ‹_›
+  · exact hq ‹_›
+
+theorem safe_fresh_res (inp : Input) (v : Nat) (hv : 100 ≤ v) : Safe inp [.fresh v .res] :=
+  safe_singleton ((ok_fresh inp v .res).2 ⟨hv, destOk_res inp⟩)
+
 theorem safe_reverseInPlace {inp : Input} {a : Nat} (hc : ¬ IsLvCr (inp.cat a)) :
     Safe inp (reverseInPlace a (inp.size a)) := by
   refine ⟨(forall_mem_reverseInPlace _ _ _).2 fun i hi => (ok_swap inp a i _).2 ⟨hc, by omega, by omega⟩, ?_⟩
